@@ -19,7 +19,7 @@ RULE = ("paired histories of 25..70 operations over 3..7 raw clients, each execu
         "from a connection that never said Hello, RequestName / ReleaseName churn with queues, AddMatch / RemoveMatch, "
         "driver queries, connects, disconnects, invalid BecomeMonitor calls (bad rule, nonzero flags, wrong signature, "
         "unprivileged uid) and 0..2 clients that call BecomeMonitor (empty filter or 1..3 selective rules over type, "
-        "sender, interface, member, path, arg0) at a random point, often while owning / queued for names and with calls "
+        "sender, interface, member, path, arg0, destination - unique, owned and ownerless well-known names, the bus) at a random point, often while owning / queued for names and with calls "
         "outstanding in both directions. Run A: (a) every monitor's socket is read up to a tokened end-marker signal "
         "and compared as a multiset with everything the harness made the bus process after the monitor's activation "
         "(its own send log, every bus-generated message some client received, every NameOwnerChanged, the model's "
@@ -1020,6 +1020,11 @@ def judge_monitors(ex, part):
                 in_window = win is not None and j < win
                 namesig = msg.type == 4 and k.get(3) in (b"NameLost", b"NameAcquired")
                 req, opt = (0, 2) if (in_window and namesig) else (1, 0)
+                if has_dest and namesig and req and i in ex.mons and j >= ex.mons[i]["pre"].get(i, 0):
+                    # NameLost to a connection in the middle of giving up its names on BecomeMonitor (the unique name goes
+                    # first): whether a destination= rule still 'knows' the addressee is not judged
+                    req, opt = 0, 1
+                    part.count("destination-unjudged")
                 view = mon.view_of(msg, BUS)
                 view["recipient"] = ex.uniq[i]
                 add(mon.stream_key(msg), view, ever.get(ex.uniq[i], {}), mon.category(msg), mon.content_of(msg), required=req, optional=opt)
@@ -1043,7 +1048,7 @@ def judge_monitors(ex, part):
                         key = ("s", b"NameLost", ex.uniq[op["c"]], (ex.sub(e[1]),))
                         view = {"type": 4, "sender": BUS, "path": BUS_PATH, "interface": BUS, "member": b"NameLost",
                                 "destination": ex.uniq[op["c"]], "args": [("s", ex.sub(e[1]))]}
-                        E.add(key, filt.matches(view, {}), "bus-signal:NameLost-to-vanished", None, optional=1, required=0)
+                        E.add(key, has_dest or filt.matches(view, {}), "bus-signal:NameLost-to-vanished", None, optional=1, required=0)
         # 4. errors the bus synthesizes for monitors when a broadcast is refused by a recipient's receive policy
         for op in plan.ops:
             if op["k"] == "signal" and op.get("denied_n") and op["i"] in ex.callinfo:
@@ -1380,6 +1385,10 @@ def run(tier, seed, replay=None, scale=1.0):
         r.require("inactive-sender-seen", 50)
         r.require("monitor-filter:empty", 50)
         r.require("monitor-filter:selective", 50)
+        r.require("monitor-filter:destination", 50)
+        r.require("destination-filter-judged", 3000)
+        r.require("destination-no-owner-shown", 15)
+        r.require("destination-bus-shown", 100)
         r.require("monitor-sent", 200)
         r.require("name-release-checked", 200)
         r.require("invalid-become-monitor", 80)
@@ -1401,5 +1410,9 @@ def run(tier, seed, replay=None, scale=1.0):
         "RemoveMatch is never issued for a rule whose sender is the unique name of a connection that has left or become a monitor: "
         "the bus may already have garbage-collected such a rule (BecomeMonitor always does, a disconnect only when the leaver held "
         "rules), which the specification leaves open",
+        "destination= in a monitor's filter is compared with the text of the DESTINATION header field; not judged: a message being "
+        "delivered to a connection under another of that connection's names than the rule gives (the bus compares by ownership "
+        "there), bus-generated messages to a connection that may have owned the rule's well-known name, and NameLost addressed to a "
+        "connection that is giving up its names in BecomeMonitor / has just vanished",
         "only the paired control 'disconnects instead' is run; the 'never connects' control of DESIGN.md is not"]
     return r.finish()
